@@ -56,25 +56,51 @@ def _raises_protocol_error(body: List[ast.stmt]) -> bool:
 def flush_defs(func: ast.AST) -> Tuple[str, Dict[str, Any]]:
     loop = _first_while(func)
     _truthy_and(loop.test, ['self._send_buf', 'self._send_window'])
-    pkt = T.find_assign(loop, 'pktsize', 0)
+    # the local that holds the packet size: the first assignment in the loop whose value is a min()/max() call
+    pkt = next((n for n in loop.body if isinstance(n, ast.Assign) and len(n.targets) == 1 and
+                isinstance(n.targets[0], ast.Name) and isinstance(n.value, ast.Call) and
+                getattr(n.value.func, 'id', '') in ('min', 'max')), None)
+    if pkt is None:
+        raise T.Untranslatable('send loop: packet size assignment not found')
+    pname = pkt.targets[0].id
     env = {'self._send_window': 'sendWindow', 'self._send_pktsize': 'sendPktsize'}
     pkt_e = T.expr_to_lean(pkt.value, env)
-    split = next((n for n in loop.body if isinstance(n, ast.If)), None)
+    # `if pktsize <= 0: break` (fix de5c08f): an `if` whose whole body is `break`
+    brk = next((n for n in loop.body if isinstance(n, ast.If) and not n.orelse and len(n.body) == 1 and
+                isinstance(n.body[0], ast.Break)), None)
+    if brk is not None and brk.lineno < pkt.lineno:
+        raise T.Untranslatable('send loop: the zero-size break precedes the packet size computation')
+    brk_e = T.expr_to_lean(brk.test, {pname: 'pktsize'}) if brk is not None else 'False'
+    split = next((n for n in loop.body if isinstance(n, ast.If) and n is not brk), None)
     if split is None:
         raise T.Untranslatable('no split test in the send loop')
-    split_e = T.expr_to_lean(split.test, {'len(buf)': 'buflen', 'pktsize': 'pktsize'})
+    if brk is not None and brk.lineno > split.lineno:
+        raise T.Untranslatable('send loop: the zero-size break comes after the split')
+    # names of the buffer entry and of the data about to be sent, from `buf, datatype = self._send_buf[0]`
+    head = next((n for n in loop.body if isinstance(n, ast.Assign) and ast.unparse(n.value) == 'self._send_buf[0]'
+                 and isinstance(n.targets[0], ast.Tuple)), None)
+    if head is None:
+        raise T.Untranslatable('send loop: head of the buffer is not taken as `x, y = self._send_buf[0]`')
+    bname = ast.unparse(head.targets[0].elts[0])
+    split_e = T.expr_to_lean(split.test, {f'len({bname})': 'buflen', pname: 'pktsize'})
     # the two branches: data = buf[:pktsize]; del buf[:pktsize]   |   data = buf; del self._send_buf[0]
-    src_then = [ast.unparse(s) for s in split.body]
-    src_else = [ast.unparse(s) for s in split.orelse]
-    if src_then != ['data = buf[:pktsize]', 'del buf[:pktsize]'] or src_else != ['data = buf', 'del self._send_buf[0]']:
+    src_then = sorted(ast.unparse(s) for s in split.body)
+    src_else = sorted(ast.unparse(s) for s in split.orelse)
+    dname = next((ast.unparse(s.targets[0]) for s in split.body if isinstance(s, ast.Assign)), 'data')
+    if src_then != sorted([f'{dname} = {bname}[:{pname}]', f'del {bname}[:{pname}]']) or \
+            src_else != sorted([f'{dname} = {bname}', 'del self._send_buf[0]']):
         raise T.Untranslatable(f'send loop split branches changed: {src_then} / {src_else}')
     dec = _augassign(loop, 'self._send_window', ast.Sub)
-    dec_e = '(sendWindow - ' + T.expr_to_lean(dec.value, {'len(data)': 'datalen'}) + ')'
+    dec_e = '(sendWindow - ' + T.expr_to_lean(dec.value, {f'len({dname})': 'datalen'}) + ')'
     out = ''
     out += '/-- `while self._send_buf and self._send_window` (truthiness of a list and of an int) -/\n'
     out += 'def flushLoopCond (bufEntries sendWindow : Int) : Prop := bufEntries ≠ 0 ∧ sendWindow ≠ 0\n\n'
     out += '/-- `pktsize = ...` in `_flush_send_buf` -/\n'
     out += f'def pktsizeExpr (sendWindow sendPktsize : Int) : Int :=\n  {pkt_e}\n\n'
+    out += '/-- `if pktsize <= 0: break`: the loop is left when nothing can be sent (`False` if the code has no such test) -/\n'
+    out += f'def breakCond (pktsize : Int) : Prop :=\n  {brk_e}\n'
+    out += 'instance (a : Int) : Decidable (breakCond a) := by unfold breakCond; exact inferInstance\n'
+    out += f'def loopBreaksOnZero : Bool := {T.lean_bool(brk is not None)}\n\n'
     out += '/-- the test that decides between `buf[:pktsize]` and the whole buffer entry -/\n'
     out += f'def splitCond (buflen pktsize : Int) : Prop :=\n  {split_e}\n'
     out += 'instance (a b : Int) : Decidable (splitCond a b) := by unfold splitCond; exact inferInstance\n\n'
@@ -82,7 +108,7 @@ def flush_defs(func: ast.AST) -> Tuple[str, Dict[str, Any]]:
     out += f'def sendWindowNext (sendWindow datalen : Int) : Int :=\n  {dec_e}\n\n'
     py = {
         'pktsizeExpr': compile(ast.Expression(pkt.value), '<pktsize>', 'eval'),
-        'splitCond': compile(ast.Expression(split.test), '<split>', 'eval'),
+        'splitCond': (compile(ast.Expression(split.test), '<split>', 'eval'), bname, pname),
     }
     return out, py
 
@@ -120,11 +146,28 @@ def deliver_defs(func: ast.AST) -> Tuple[str, Dict[str, Any]]:
     return out, py
 
 
-def window_check(func: ast.AST, name: str) -> str:
+def window_check(func: ast.AST, name: str) -> Tuple[str, ast.AST]:
     for n in ast.walk(func):
         if isinstance(n, ast.If) and _raises_protocol_error(n.body) and 'Window exceeded' in ast.unparse(n.body[0]):
-            return T.expr_to_lean(n.test, {'datalen': 'datalen', 'self._recv_window': 'recvWindow'})
+            return T.expr_to_lean(n.test, {'datalen': 'datalen', 'self._recv_window': 'recvWindow',
+                                           'self._recv_buf_len': 'recvBufLen'}), n.test
     raise T.Untranslatable(f'{name}: window check not found')
+
+
+def attr_sites(cls: ast.AST, attr: str) -> List[str]:
+    """every statement of SSHChannel that writes `self.<attr>`, as 'method: statement'"""
+    res = []
+    for f in cls.body:       # type: ignore
+        if isinstance(f, (ast.FunctionDef, ast.AsyncFunctionDef)):
+            for n in ast.walk(f):
+                tgt = None
+                if isinstance(n, ast.Assign) and len(n.targets) == 1:
+                    tgt = n.targets[0]
+                elif isinstance(n, (ast.AugAssign, ast.AnnAssign)):
+                    tgt = n.target
+                if tgt is not None and _attr(tgt) == 'self.' + attr:
+                    res.append(f'{f.name}: {ast.unparse(n)}')
+    return sorted(res)
 
 
 def decrement_site(cls: ast.AST) -> List[str]:
@@ -164,6 +207,43 @@ def pktsize_handling(func: ast.AST, name: str) -> Dict[str, bool]:
             'adjust': dec_line is not None}
 
 
+# what each item looked like when the model was written (used only when an item can no longer be translated)
+BASELINE = {
+    'flush': (
+        '/-- `while self._send_buf and self._send_window` (truthiness of a list and of an int) -/\n'
+        'def flushLoopCond (bufEntries sendWindow : Int) : Prop := bufEntries ≠ 0 ∧ sendWindow ≠ 0\n\n'
+        '/-- `pktsize = ...` in `_flush_send_buf` -/\n'
+        'def pktsizeExpr (sendWindow sendPktsize : Int) : Int :=\n  (min sendWindow sendPktsize)\n\n'
+        '/-- `if pktsize <= 0: break` -/\n'
+        'def breakCond (pktsize : Int) : Prop :=\n  (pktsize ≤ (0 : Int))\n'
+        'instance (a : Int) : Decidable (breakCond a) := by unfold breakCond; exact inferInstance\n'
+        'def loopBreaksOnZero : Bool := true\n\n'
+        '/-- the test that decides between `buf[:pktsize]` and the whole buffer entry -/\n'
+        'def splitCond (buflen pktsize : Int) : Prop :=\n  (buflen > pktsize)\n'
+        'instance (a b : Int) : Decidable (splitCond a b) := by unfold splitCond; exact inferInstance\n\n'
+        '/-- `self._send_window -= len(data)` -/\n'
+        'def sendWindowNext (sendWindow datalen : Int) : Int :=\n  (sendWindow - datalen)\n\n'),
+    'deliver': (
+        '/-- `self._recv_window -= len(data)` in `_deliver_data` -/\n'
+        'def recvWindowAfter (recvWindow datalen : Int) : Int :=\n  (recvWindow - datalen)\n\n'
+        '/-- `if self._recv_window < self._init_recv_window / 2` (true division, made exact over the integers) -/\n'
+        'def replenishCond (recvWindow initWindow : Int) : Prop :=\n  (recvWindow * (2 : Int) < initWindow)\n'
+        'instance (a b : Int) : Decidable (replenishCond a b) := by unfold replenishCond; exact inferInstance\n\n'
+        '/-- `adjust = ...`, the value sent in WINDOW_ADJUST -/\n'
+        'def adjustExpr (initWindow recvWindow : Int) : Int :=\n  (initWindow - recvWindow)\n\n'
+        '/-- `self._recv_window = ...` after the adjust was sent -/\n'
+        'def recvWindowReset (initWindow recvWindow : Int) : Int :=\n  initWindow\n\n'),
+    'wcheck': (
+        '/-- the receive-side check -/\n'
+        'def windowExceededCond (datalen recvWindow recvBufLen : Int) : Prop :=\n  (datalen > (recvWindow - recvBufLen))\n'
+        'instance (a b c : Int) : Decidable (windowExceededCond a b c) := by '
+        'unfold windowExceededCond; exact inferInstance\n\n'),
+    'wadj': (
+        '/-- `self._send_window += adjust` in `_process_window_adjust` -/\n'
+        'def sendWindowAdjusted (sendWindow adjust : Int) : Int :=\n  (sendWindow + adjust)\n\n'),
+}
+
+
 def generate(prop: str) -> Dict[str, Any]:
     src = T.read_source('asyncssh/channel.py')
     tree = ast.parse(src)
@@ -182,23 +262,56 @@ def generate(prop: str) -> Dict[str, Any]:
                           '_process_extended_data, _process_window_adjust)',
                           'asyncssh/connection.py (_process_channel_open, _process_channel_open_confirmation)'])
     out += f'namespace AsyncsshModel.Gen.{prop}\n\n'
-    f_out, f_py = flush_defs(flush)
-    d_out, d_py = deliver_defs(deliver)
-    out += f_out + d_out
-    w1, w2 = window_check(pdata, '_process_data'), window_check(pext, '_process_extended_data')
-    if w1 != w2:
-        raise T.Untranslatable('window checks of DATA and EXTENDED_DATA differ')
-    out += '/-- the receive-side check `if datalen > self._recv_window: raise ProtocolError(\'Window exceeded\')` -/\n'
-    out += f'def windowExceededCond (datalen recvWindow : Int) : Prop :=\n  {w1}\n'
-    out += 'instance (a b : Int) : Decidable (windowExceededCond a b) := by unfold windowExceededCond; exact inferInstance\n\n'
-    inc = _augassign(padj, 'self._send_window', ast.Add)
-    out += '/-- `self._send_window += adjust` in `_process_window_adjust` -/\n'
-    out += 'def sendWindowAdjusted (sendWindow adjust : Int) : Int :=\n  (sendWindow + ' + \
-        T.expr_to_lean(inc.value, {'adjust': 'adjust'}) + ')\n\n'
+    fallbacks: List[str] = []
+    py: Dict[str, Any] = {}
+
+    def item(name: str, fn: Callable[[], Tuple[str, Dict[str, Any]]]) -> str:
+        """translate one item; if the code no longer has the shape the translator reads, emit the baseline text
+        (the expressions the model was written from) and record the fallback: that item is then tied to the code
+        by the correspondence run only"""
+        try:
+            text, codes = fn()
+            py.update(codes)
+            return text
+        except T.Untranslatable as e:
+            fallbacks.append(f'{name}: {e}')
+            return BASELINE[name]
+
+    out += item('flush', lambda: flush_defs(flush))
+    out += item('deliver', lambda: deliver_defs(deliver))
+
+    def wcheck() -> Tuple[str, Dict[str, Any]]:
+        (w1, t1), (w2, _t2) = window_check(pdata, '_process_data'), window_check(pext, '_process_extended_data')
+        if w1 != w2:
+            raise T.Untranslatable('window checks of DATA and EXTENDED_DATA differ')
+        t = ('/-- the receive-side check `if datalen > self._recv_window - self._recv_buf_len: '
+             'raise ProtocolError(\'Window exceeded\')` -/\n')
+        t += f'def windowExceededCond (datalen recvWindow recvBufLen : Int) : Prop :=\n  {w1}\n'
+        t += ('instance (a b c : Int) : Decidable (windowExceededCond a b c) := by '
+              'unfold windowExceededCond; exact inferInstance\n\n')
+        return t, {'windowExceededCond': compile(ast.Expression(t1), '<wcheck>', 'eval')}
+    out += item('wcheck', wcheck)
+
+    def wadj() -> Tuple[str, Dict[str, Any]]:
+        inc = _augassign(padj, 'self._send_window', ast.Add)
+        t = '/-- `self._send_window += adjust` in `_process_window_adjust` -/\n'
+        t += 'def sendWindowAdjusted (sendWindow adjust : Int) : Int :=\n  (sendWindow + ' + \
+            T.expr_to_lean(inc.value, {'adjust': 'adjust'}) + ')\n\n'
+        return t, {}
+    out += item('wadj', wadj)
+    out += '/-- where `_recv_buf_len` (bytes buffered while reading is paused) is maintained: method and operation -/\n'
+    out += 'def recvBufLenSites : List String := ' + T.lean_list([T.lean_str(x) for x in attr_sites(cls, '_recv_buf_len')]) + '\n\n'
+    out += '/-- where `_recv_eof_pending` (EOF still pending when CLOSE arrived) is written -/\n'
+    out += 'def recvEofPendingSites : List String := ' + T.lean_list([T.lean_str(x) for x in attr_sites(cls, '_recv_eof_pending')]) + '\n\n'
     sites = decrement_site(cls)
     out += '/-- the methods of `SSHChannel` in which `_recv_window` is decremented -/\n'
     out += 'def recvWindowDecrementedIn : List String := ' + T.lean_list([T.lean_str(s) for s in sites]) + '\n\n'
-    ho, hc = pktsize_handling(popen, '_process_channel_open'), pktsize_handling(pconf, '_process_channel_open_confirmation')
+    try:
+        ho = pktsize_handling(popen, '_process_channel_open')
+        hc = pktsize_handling(pconf, '_process_channel_open_confirmation')
+    except T.Untranslatable as e:
+        fallbacks.append(f'pktsize: {e}')
+        ho = hc = {'check': False, 'after_adjust': False, 'adjust': True}
     out += '/-- is a zero maximum packet size rejected when a channel is opened / confirmed (an ACTIVE\n'
     out += '    `if send_pktsize == 0: raise ProtocolError`), and does the check see the value after the dropbear `-= 1`? -/\n'
     out += f'def zeroPktsizeRejectedOpen : Bool := {T.lean_bool(ho["check"] and ho["after_adjust"])}\n'
@@ -208,12 +321,15 @@ def generate(prop: str) -> Dict[str, Any]:
     out += f'end AsyncsshModel.Gen.{prop}\n'
     changed = vlib.write_if_changed(vlib.module_path(f'AsyncsshModel.Gen.{prop}'), out)
     return {'gen_file': f'Gen/{prop}.lean', 'changed': changed, 'decrement_sites': sites,
-            'zero_pktsize_check': {'open': ho, 'confirm': hc}, '_py': {**f_py, **d_py}}
+            'zero_pktsize_check': {'open': ho, 'confirm': hc}, 'fallbacks': fallbacks, '_py': py}
 
 
 def self_test(prop: str, info: Dict[str, Any], rng: Any) -> List[str]:
     """the translated expressions against the Python originals, evaluated from the source text"""
     py = info.pop('_py')
+    if not all(k in py for k in ('pktsizeExpr', 'splitCond', 'replenishCond', 'adjustExpr')):
+        info['selftest_cases'] = 0
+        return []       # an item fell back to its baseline text: nothing of the current source to compare with
 
     class S:
         pass
@@ -242,9 +358,16 @@ def self_test(prop: str, info: Dict[str, Any], rng: Any) -> List[str]:
         lines.append(f'#eval decide (replenishCond ({w} : Int) ({i} : Int))')
         expected.append('true' if ev(py['replenishCond'], _recv_window=w, _init_recv_window=i) else 'false')
         lines.append(f'#eval decide (splitCond ({abs(w)} : Int) ({i} : Int))')
-        expected.append('true' if ev(py['splitCond'], buf=b'x' * min(abs(w), 5000), pktsize=i)
-                        else 'false') if abs(w) <= 5000 else expected.append(
-            'true' if abs(w) > i else 'false')
+        code, bname, pname = py['splitCond']
+        n = min(abs(w), 4096)
+        lines[-1] = f'#eval decide (splitCond ({n} : Int) ({i} : Int))'
+        expected.append('true' if ev(code, **{bname: b'x' * n, pname: i}) else 'false')
+    if 'windowExceededCond' in py:
+        for d, w in pairs[:25]:
+            for q in (0, 1, 7, 100):
+                lines.append(f'#eval decide (windowExceededCond ({d} : Int) ({w} : Int) ({q} : Int))')
+                expected.append('true' if ev(py['windowExceededCond'], datalen=d, _recv_window=w, _recv_buf_len=q)
+                                else 'false')
     import os
     import subprocess
     path = os.path.join(vlib.LEAN_DIR, 'Audit', f'_selftest_{prop}_cond.lean')
